@@ -650,7 +650,7 @@ Proof.
       rewrite (lk_step_fail _ _ _ _ E' Hr). reflexivity.
     + destruct (lk_into_vesting c g st e l v) as [c' r'] eqn:E. cbn [fst snd].
       destruct (N.eqb_spec r' LK_OK); inversion 1; subst; congruence.
-  - destruct vk; cbn [negb]; [|inversion 1; congruence]. destruct (negb (sg =? f)%N); inversion 1; subst; congruence.
+  - destruct vk; cbn [negb]; [|inversion 1; congruence]. destruct (negb (sg =? f)%N); [inversion 1; congruence|]. destruct (sg =? nw)%N; inversion 1; subst; congruence.
 Qed.
 
 (** a successful MsgConvertVestingAccount: the account was a vesting account whose SCHEDULE has nothing
@@ -697,7 +697,7 @@ Proof.
       destruct (N.eqb_spec r' LK_OK); [|inversion E; congruence]. subst r'. inversion E; subst. cbn [lx_s].
       apply lk_into_vesting_ok in E' as (Hg & Hwf & ->). destruct Hw as (_ & _ & _ & Hd & Hu).
       unfold lk_wfs. lk_proj. repeat split; try assumption; try lia. destruct (lk_bond c); lia.
-  - destruct vk; cbn [negb] in E; [|discriminate]. destruct (negb (sg =? f)%N); inversion E; subst. exact Hw.
+  - destruct vk; cbn [negb] in E; [|discriminate]. destruct (negb (sg =? f)%N); [discriminate|]. destruct (sg =? nw)%N; inversion E; subst. exact Hw.
 Qed.
 
 Lemma lk_plain_step_ok_inv s o : lk_wfs s -> lkx_plain_ok s -> lkx_plain_ok (fst (lk_plain_step s o)).
@@ -747,7 +747,7 @@ Proof.
       assert (0 <= 0 + (if lk_bond c then lk_deleg c + lk_unb c else 0)) by (destruct (lk_bond c); lia).
       specialize (Hl ltac:(lia)). lia.
   - destruct s as [c vk f]. unfold lkx_inv, lkx_step in *. cbn [lkx_step_g lx_s lx_vesting lx_funder] in *.
-    destruct vk; cbn [negb] in E; [|discriminate]. destruct (negb (sg =? f)%N); inversion E; subst. exact Hi.
+    destruct vk; cbn [negb] in E; [|discriminate]. destruct (negb (sg =? f)%N); [discriminate|]. destruct (sg =? nw)%N; inversion E; subst. exact Hi.
 Qed.
 
 (** "unvested coins are never delegated" across the account-type operations *)
@@ -780,7 +780,7 @@ Proof.
       destruct (N.eqb_spec r' LK_OK); [|inversion E; congruence]. subst r'. inversion E; subst. cbn [lx_s lx_vesting].
       apply lk_into_vesting_ok in E' as (Hg & Hwf & ->). pose proof (lk_vested_bounds _ (lk_now c) Hwf) as Hv.
       unfold lk_safe, lk_unvested in *. lk_proj. lia.
-  - destruct vk; cbn [negb] in E; [|discriminate]. destruct (negb (sg =? f)%N); inversion E; subst. exact Hs.
+  - destruct vk; cbn [negb] in E; [|discriminate]. destruct (negb (sg =? f)%N); [discriminate|]. destruct (sg =? nw)%N; inversion E; subst. exact Hs.
 Qed.
 
 Lemma lkx_step_tracked s o : lkx_wfs s -> lkx_tracked s -> lkx_is_slash o = false -> lkx_tracked (fst (lkx_step s o)).
@@ -800,7 +800,7 @@ Proof.
     + destruct (lk_into_vesting c g st e l v) as [c' r'] eqn:E'. cbn [fst snd] in E.
       destruct (N.eqb_spec r' LK_OK); [|inversion E; congruence]. subst r'. inversion E; subst. cbn [lx_s lx_vesting].
       apply lk_into_vesting_ok in E' as (_ & _ & ->). unfold lk_tracked_le_actual. lk_proj. destruct (lk_bond c); lia.
-  - destruct vk; cbn [negb] in E; [|discriminate]. destruct (negb (sg =? f)%N); inversion E; subst. exact Ht.
+  - destruct vk; cbn [negb] in E; [|discriminate]. destruct (negb (sg =? f)%N); [discriminate|]. destruct (sg =? nw)%N; inversion E; subst. exact Ht.
 Qed.
 
 (** a merge / a conversion into a vesting account re-establishes "tracked = actual" *)
